@@ -222,6 +222,22 @@ def base_name(e):
     return None
 
 
+ELEMENTWISE_ADAPTERS = ("copied", "cloned", "by_ref", "filter", "map", "filter_map", "inspect", "peekable", "flatten", "flat_map")
+
+
+def chain_root(e):
+    """`x.iter().copied().filter(..)` -> (name of x, [adapters after the iteration root]); None when the expression is not such a chain"""
+    e = strip_paren(e)
+    ads = []
+    while e["t"] == "MethodCall" and e["method"] not in ("iter", "iter_mut", "into_iter", "drain", "keys", "values", "values_mut", "into_keys", "into_values"):
+        ads.append(e["method"])
+        e = strip_paren(e["receiver"])
+    if e["t"] != "MethodCall" or not ads:
+        return None
+    b = base_name(e)
+    return (b, list(reversed(ads))) if b else None
+
+
 def run_iter_order(res, ast):
     res.rule("ITER-ORDER", "every iteration over a randomly seeded hash container or a BinaryHeap feeds only commutative sinks "
              "(any/all/count/min/max, insertion or removal in a hash container, BinaryHeap::push, integer accumulation, calls to "
@@ -260,6 +276,17 @@ def run_iter_order(res, ast):
                 b = base_name(l["expr"])
                 if b and kinds.get(b, set()) & {"hash", "heap"}:
                     sites.append(("for", b, l))
+                    continue
+                cr = chain_root(l["expr"])
+                if cr and kinds.get(cr[0], set()) & {"hash", "heap"}:
+                    # `for x in set.iter().copied()`: element-wise adapters keep it an iteration over the container; anything that numbers,
+                    # cuts or reorders the sequence (enumerate, skip, take, zip, rev, step_by, ..) makes the loop depend on the order
+                    bad_ad = [a for a in cr[1] if a not in ELEMENTWISE_ADAPTERS]
+                    if bad_ad:
+                        res.bad("ITER-ORDER", f"{path}|{fr['name']}|for {cr[0]}|{'.'.join(bad_ad)}", where(path, l, fr["name"]),
+                                f"{fr['name']}: `for .. in {cr[0]}…` goes through `.{bad_ad[0]}()`, which depends on the container's iteration order")
+                    else:
+                        sites.append(("for", cr[0], l))
             for m in walk_t(body, "MethodCall"):
                 if m["method"] in ("iter", "into_iter", "drain", "keys", "values", "iter_mut"):
                     b = base_name(m)
